@@ -76,6 +76,8 @@ def search(model, max_depth, max_deviations=None, dedup=True, time_cap=None, sta
                     stats["outcomes"].add(info)
                 if max_deviations is not None and sum(model.deviation(e) for e in h) > max_deviations:
                     continue
+                if isinstance(key, tuple) and key and key[0] == "livelock":
+                    continue        # reported; a node that never becomes quiescent has no successors
                 if dedup:
                     if key in seen:
                         continue
